@@ -57,6 +57,11 @@ def run(ck):
         for n in copies:
             fam, s = rng.choice(compositions(rng, kind, rng.choice([20, 60, 90])))
             jobs.append((kind, fam, s, n, rng.choice(TYPES[kind]), rng.choice([1, 16])))
+    # many copies of a long string: the scores of the last merges grow like members x members x columns x match score (the
+    # default nucleotide set scores some hundred per match) - beyond 2^24 (float mantissa) and 2^31 (int)
+    for (nn, LL) in ([(160, 1200)] if quick else [(160, 1200), (200, 1000), (260, 800)]):
+        fam, s = 'plain', gen.rand_seq(rng, gen.DNA, LL)
+        jobs.append(('dna', 'many-long-copies', s, nn, 5, rng.choice([4, 16])))
     lines = [nc.run_line([s] * n, 5, [gen.NG] * 3, thr, flags=4) for (kind, fam, s, n, ty, thr) in jobs]
     first = ck.run_lines_sharded(kvh, lines, shards=14, timeout=3000)
     # second pass with an explicit type admissible for the DETECTED kind
